@@ -1,0 +1,19 @@
+//go:build verif
+
+package discovery
+
+// VerifShutdownNoLeave stops memberlist without broadcasting a leave message,
+// the way a crashed process disappears. Survivors have to detect it by probing.
+func (d *Discovery) VerifShutdownNoLeave() error {
+	select {
+	case <-d.ctx.Done():
+		return nil
+	default:
+	}
+	d.cancel()
+	d.wg.Wait()
+	if d.memberlist != nil {
+		return d.memberlist.Shutdown()
+	}
+	return nil
+}
